@@ -114,16 +114,61 @@ def _per_episode(ctx, b, rec, summ, mon):
 
 
 def work_items(tier, flt):
-    return histprop.work_items(envs.ENV_NAMES, tier, flt, 24, 250,
-                               cost={"BinPack": 4, "PacMan": 3, "MMST": 3, "RubiksCube": 2, "Connector": 2})
+    items = histprop.work_items(envs.ENV_NAMES, tier, flt, 24, 250,
+                                cost={"BinPack": 4, "PacMan": 3, "MMST": 3, "RubiksCube": 2, "Connector": 2})
+    if tier == "quick" and not (flt and flt.get("entry")):
+        # the remaining menu entries get the trace-only part (abstract shapes/dtypes/structure of reset and
+        # step outputs, generate_value membership): no compilation, seconds per entry
+        have = {(it["env"], it["entry"]) for it in items}
+        for env in envs.select_envs(envs.ENV_NAMES, flt):
+            rest = [e for e in envs.entries(env) if (env, e) not in have]
+            if rest:
+                items.append({"kind": "abstract", "env": env, "entries": rest, "entry": "+".join(rest)[:60], "cost": 0.5 * len(rest)})
+    return items
+
+
+def _abstract_checks(ctx, env_name, entry):
+    """eval_shape-only variant of _static_checks (nothing is compiled or executed)."""
+    import jax
+
+    case = {"env": env_name, "entry": entry, "overrides": {}, "key": [0, 0], "actions": [], "abstract": True}
+    with ctx.guard(env_name, case):
+        env = envs.make_env(env_name, entry)
+        a = env.action_spec.generate_value()
+        ctx.evals()
+        for path, kind, detail in specwalk.conforms(env.action_spec, a, "action"):
+            ctx.fail("generate_value.member", env_name, f"{path}: {kind}", f"generate_value(): {detail} [entry={entry}]", case)
+        key = envs.make_key((0, 0))
+        st_aval, ts_aval = jax.eval_shape(env.reset, key)
+        _, ts2_aval = jax.eval_shape(env.step, st_aval, a)
+        for tag, tsa in (("reset", ts_aval), ("step", ts2_aval)):
+            ctx.evals()
+            zeros = jax.tree_util.tree_map(lambda s: np.zeros(s.shape, s.dtype), tsa)
+            for name, spec, val in (("observation", env.observation_spec, zeros.observation),
+                                    ("reward", env.reward_spec, zeros.reward), ("discount", env.discount_spec, zeros.discount)):
+                for path, kind, detail in specwalk.conforms(spec, val, name):
+                    if kind in ("shape", "dtype", "structure"):
+                        ctx.fail(f"eval_shape.{tag}", env_name, f"{path}: {kind}",
+                                 f"abstract {tag} output: {detail} [entry={entry}]", case)
+        ctx.nontrivial(env_name, entry, "abstract")
+        ctx.count("abstract_entries")
 
 
 def run_item(item, seed, tier):
+    if item.get("kind") == "abstract":
+        ctx = Ctx(PROPERTY, item)
+        for e in item["entries"]:
+            _abstract_checks(ctx, item["env"], e)
+        return ctx.result()
     return histprop.run_item(PROPERTY, item, seed, Mon, max_len=60, setup=_static_checks,
                              per_episode=_per_episode)
 
 
 def replay(case):
+    if case.get("abstract"):
+        ctx = Ctx(PROPERTY, {})
+        _abstract_checks(ctx, case["env"], case["entry"])
+        return list(ctx.failures.values())
     if case.get("static") or case.get("stage") == "construct":
         ctx = Ctx(PROPERTY, {})
         with ctx.guard(case["env"], case):
